@@ -356,12 +356,27 @@ def r055(report, lm):
         if isinstance(n, ast.While) and isinstance(n.test, ast.Compare) and \
                 len(n.test.ops) == 1 and isinstance(
                     n.test.ops[0], ast.In) and isinstance(
-                    n.test.comparators[0], ast.Constant) and isinstance(
-                    n.test.comparators[0].value, str):
-            skip = n.test.comparators[0].value
+                    n.test.left, ast.Name):
+            c = n.test.comparators[0]
+            val = None
+            if isinstance(c, ast.Constant):
+                val = c.value
+            elif isinstance(c, ast.Attribute) and isinstance(
+                    c.value, ast.Name) and c.value.id == 'self':
+                try:
+                    val = lm.module.fold_name(c.attr, 'Lexer')
+                except Exception:
+                    val = None
+            elif isinstance(c, ast.Name):
+                try:
+                    val = lm.module.fold_name(c.id, 'Lexer')
+                except Exception:
+                    val = None
+            if isinstance(val, str):
+                skip = val
     if skip is None:
         raise AnalysisError('Lexer._token: the white-space peek loop '
-                            '`while char in <constant>` was not found')
+                            '`while char in <constant string>` was not found')
     ignore = lm.ignore.get('INITIAL', '')
     # line terminators are tokens of their own (handled by the loop)
     missing = sorted(set(ignore) - set(skip) - set('\n\r\u2028\u2029'))
